@@ -76,7 +76,14 @@ def posOK (p : String) : Bool :=
   if p.length < 2 then false else
   let tag := (p.take 1).toString
   let rest := (p.drop 1).toString
-  if tag == "a" || tag == "e" || tag == "m" then digitsOnly rest && p.length < 9
+  if tag == "s" then
+    -- s:<col>:(a|e)<n>   (a byte of the statistics record of a column inside a .sst file)
+    match p.splitOn ":" with
+    | ["s", col, an] =>
+      !col.isEmpty && col.length < 20 && an.length ≥ 2 && an.length < 8 &&
+        ((an.take 1).toString == "a" || (an.take 1).toString == "e") && digitsOnly (an.drop 1).toString
+    | _ => false
+  else if tag == "a" || tag == "e" || tag == "m" then digitsOnly rest && p.length < 9
   else if tag == "c" then
     -- c<k>[hdtp]<d>
     let k := rest.takeWhile Char.isDigit
@@ -96,7 +103,7 @@ def mutOK (s : String) (nseg : Nat) : Bool :=
       | ["crup", i] => digitsOnly i && i.length ≤ 2
       | [k] => ["bsu", "sst", "sfm", "segmeta"].contains k
       | _ => false
-    let mOK := if m == "none" then true else
+    let mOK := if m == "none" || m == "del" then true else
       match m.splitOn "@" with
       | ["cut", p] => posOK p
       | [op, pv] =>
